@@ -881,7 +881,7 @@ def run(tier, seed):
     gen_tie.gate(chk, ['override_platform_guard'], gate)
     # glue code (DESIGN 11.7, third round): the body of the loop over the overrides in TestSettings::new (first override
     # that sets a setting wins, for each of the eleven settings), read from the source
-    gen_tie.gate(chk, ['override_loop_body'], gate, family="glue")
+    gen_tie.gate(chk, ['override_loop_body', 'display_setting'], gate, family="glue")
     checker_cmd = "make -C coq Properties/C06.vo && coqc gen/assump_C06.v (Print Assumptions)"
     binary, err = vlib.build_harness()
     if binary is None:
